@@ -43,6 +43,12 @@ class C11(Check):
             # for the port-ID rules these are two different names
             rn0, sh0 = names[0]
             names.append((rn0, sh0.lower()))
+        if rng.random() < 0.2:
+            # a type in a nested namespace that is named like another type, with the short name Request / Response (a service's
+            # sections are implicit types of those names): for the rules these are different full names
+            rn0, sh0 = names[0]
+            if "." not in sh0:
+                names.append((rn0, sh0 + "." + rng.choice(["Request", "Response", "request", "Req"])))
         mports = [0, 0, 6144, 7167, 8191]
         sports = [0, 0, 256, 511]
         used = set()
